@@ -146,6 +146,25 @@ def gen_ast(rng: random.Random, w: int) -> dict:
     for name in POOL_LABELS:
         main.append({"k": "label", "n": name})
         main.append({"k": "op", "f": EX("num"), "j": EX("num")})
+    # extern labels: now and then a label of a macro body is NOT declared local - it is then one global label (in the
+    # macro's namespace), legal as long as the macro is expanded at most once (a second expansion is a duplicate label in
+    # the macro program and in its inlining alike)
+    for k_, d in enumerate(defs):
+        if d["locals"] and not d["ns"] and rng.random() < 0.35:        # (root-namespace macros: the label's global name is its own spelling)
+            old_ = d["locals"].pop(rng.randrange(len(d["locals"])))
+            new_ = f"e{k_}{old_}"
+
+            def ren(e):
+                if e["b"] == "id" and e["dots"] == 0 and e["n"] == old_:
+                    e["n"] = new_
+            for s_ in d["body"]:
+                if s_["k"] == "label" and s_["n"] == old_:
+                    s_["n"] = new_
+                for key in ("f", "j", "a", "v", "r", "cnt"):
+                    if key in s_ and isinstance(s_[key], dict):
+                        ren(s_[key])
+                for a_ in s_.get("args", []):
+                    ren(a_)
     return {"defs": defs, "main": main}
 
 
@@ -200,12 +219,51 @@ def rstmt(s: dict, ind: str) -> str:
     return f"{ind}rep({rexpr(s['cnt'])}, {s['it']}) {name} {args}".rstrip()
 
 
+def _used_globals(d: dict):
+    """identifiers of the body that are neither parameters nor local labels (global labels, as written: with their dots),
+    and the labels the body defines without declaring them local (extern labels)"""
+    bound = set(d["params"]) | set(d["locals"])
+    used, defined = [], []
+
+    def ex(e, extra=()):
+        if e["b"] == "id" and not (e["dots"] == 0 and (e["n"] in bound or e["n"] in extra)):
+            t = "." * e["dots"] + e["n"]
+            if t not in used and not any(x["k"] == "label" and x["n"] == e["n"] and e["dots"] == 0 for x in d["body"]):
+                used.append(t)          # (a label the body itself defines is an extern label, not a used global)
+
+    for s in d["body"]:
+        k = s["k"]
+        if k == "op":
+            ex(s["f"]); ex(s["j"])
+        elif k == "wflip":
+            ex(s["a"]); ex(s["v"]); ex(s["r"])
+        elif k == "label":
+            if s["n"] not in bound and s["n"] not in defined:
+                defined.append(s["n"])
+        elif k == "call":
+            for a in s["args"]:
+                ex(a)
+        else:
+            ex(s["cnt"])
+            for a in s["args"]:
+                ex(a, (s["it"],))
+    return used, defined
+
+
 def rdef(d: dict, ind: str) -> str:
     head = f"{ind}def {d['name']}"
     if d["params"]:
         head += " " + ", ".join(d["params"])
     if d["locals"]:
         head += " @ " + ", ".join(d["locals"])
+    # the declarations of used global labels (<) and defined extern labels (>) are optional in the language: about two
+    # thirds of the definitions carry them (chosen by a hash of the name, so that the choice is stable)
+    if sum(map(ord, d["name"])) % 3:
+        used, defined = _used_globals(d)
+        if used:
+            head += " < " + ", ".join(used)
+        if defined:
+            head += " > " + ", ".join(defined)
     lines = [head + " {"] + [rstmt(s, ind + "    ") for s in d["body"]] + [ind + "}"]
     return "\n".join(lines)
 
@@ -284,6 +342,11 @@ def _case(args):
         ctx = {"source": single, "inlined": c02.render_prog(prog)}
         if not inl["wellformed"]:
             raise MachineryFailure("generator produced a call to an undefined macro")
+        if not inl.get("gunique", True):
+            # the same global label is defined twice (an extern label of a macro that is expanded twice): a program error
+            if orig["ok"]:
+                return [{"what": "a global label defined twice (by two expansions of one macro) is accepted", **ctx}]
+            return [{"skipped": "duplicate global label: rejected, as it must be"}]
         if not flat["ok"] and not orig["ok"]:
             return [{"skipped": "neither the program nor its inlining assembles: " + flat["err"][:120]}]
         if not flat["ok"]:
